@@ -144,7 +144,8 @@ def adapt2 (s : State) : State :=
 
 theorem step_eq (s : State) (ev : Event) :
     step s ev =
-      if (!learning (adapt1 (record s ev)) && (adapt1 (record s ev)).tried == 0) = true then
+      if (!learning (adapt1 (record s ev)) && decide (s.tried < 0) &&
+          decide (0 ≤ (adapt1 (record s ev)).tried)) = true then
         addNew (adapt2 (adapt1 (record s ev))) (adapt2 (adapt1 (record s ev))).cur
       else adapt1 (record s ev) := rfl
 
@@ -171,38 +172,6 @@ theorem Inv.step {s : State} (hs : Inv s) (ev : Event) : Inv (step s ev) := by
   rw [step_eq]; split
   · exact (hs.record ev).adapt1.adapt2.addNew _
   · exact (hs.record ev).adapt1
-
-/-- at iteration boundaries `tried` is never 0 -/
-theorem step_tried_ne_zero {s : State} (hs : Inv s) (ev : Event) : (step s ev).tried ≠ 0 := by
-  have hr := (hs.record ev).adapt1
-  rw [step_eq]; split
-  · rename_i h
-    simp only [Bool.and_eq_true, Bool.not_eq_true', beq_iff_eq] at h
-    obtain ⟨w, a, h2⟩ := adapt2_eq (adapt1 (record s ev))
-    have hl : learning (adapt2 (adapt1 (record s ev))) = false := by rw [h2]; exact h.1
-    rw [addNew_chain _ hl, h2]
-    simp only [h.2]; decide
-  · rename_i h
-    simp only [Bool.and_eq_true, Bool.not_eq_true', beq_iff_eq, not_and] at h
-    intro h0
-    cases hl : learning (adapt1 (record s ev))
-    · exact h hl h0
-    · have := (hr.learn hl).1; omega
-
-/-- invariant of states at iteration boundaries -/
-structure BInv (s : State) : Prop extends Inv s where
-  ne0 : s.tried ≠ 0
-
-theorem binv_init (L W C : Nat) (x0 : Entry) : BInv (init L W C x0) :=
-  ⟨inv_init L W C x0, by simp [init]⟩
-
-theorem BInv.step {s : State} (hs : BInv s) (ev : Event) : BInv (step s ev) :=
-  ⟨hs.toInv.step ev, step_tried_ne_zero hs.toInv ev⟩
-
-theorem binv_foldl {s : State} (hs : BInv s) (evs : List Event) : BInv (evs.foldl step s) := by
-  induction evs generalizing s with
-  | nil => exact hs
-  | cons ev evs ih => exact ih (hs.step ev)
 
 /-! ### entries -/
 
@@ -323,28 +292,96 @@ theorem record_tried_learning {s : State} (ev : Event) (h : learning s = true) :
 theorem adapt1_tried (s : State) : (adapt1 s).tried = s.tried := by
   obtain ⟨w, a, h⟩ := adapt1_eq s; rw [h]
 
-theorem step_of_tried_ne_zero {s : State} {ev : Event} (h : (record s ev).tried ≠ 0) :
-    step s ev = adapt1 (record s ev) := by
+theorem step_of_not_first {s : State} {ev : Event}
+    (h : ¬ (s.tried < 0 ∧ 0 ≤ (record s ev).tried)) : step s ev = adapt1 (record s ev) := by
   rw [step_eq, adapt1_tried]
-  simp [h]
+  split
+  · rename_i h'
+    simp only [Bool.and_eq_true, decide_eq_true_eq] at h'
+    exact absurd ⟨h'.1.2, h'.2⟩ h
+  · rfl
 
-theorem step_of_chain_tried_ne_zero {s : State} {ev : Event} (hl : learning (record s ev) = false)
-    (h : (record s ev).tried ≠ 0) : step s ev = record s ev := by
-  rw [step_of_tried_ne_zero h, adapt1_not_learning hl]
+/-- a chain iteration that is not the first one: nothing but the record -/
+theorem step_of_chain_started {s : State} {ev : Event} (hl : learning (record s ev) = false)
+    (h : 0 ≤ s.tried) : step s ev = record s ev := by
+  rw [step_of_not_first (by omega), adapt1_not_learning hl]
 
-theorem step_of_chain_tried_zero {s : State} {ev : Event} (hl : learning (record s ev) = false)
-    (h : (record s ev).tried = 0) :
+/-- the first chain iteration: the recorded state is held one extra time -/
+theorem step_of_chain_first {s : State} {ev : Event} (hl : learning (record s ev) = false)
+    (h : s.tried < 0) (h' : 0 ≤ (record s ev).tried) :
+    learning (step s ev) = false ∧
     (step s ev).chain = (record s ev).chain ++ [(record s ev).cur] ∧
-    (step s ev).tried = 1 ∧
+    (step s ev).tried = (record s ev).tried + 1 ∧
     (step s ev).accepted = (record s ev).accepted + 1 ∧
     (step s ev).cur = (record s ev).cur := by
   rw [step_eq, adapt1_not_learning hl]
-  simp only [hl, h, Bool.not_false, beq_self_eq_true, Bool.and_self, if_true]
+  simp only [hl, h, h', Bool.not_false, decide_true, Bool.and_self, if_true]
   obtain ⟨w, a, h2⟩ := adapt2_eq (record s ev)
   have hl2 : learning (adapt2 (record s ev)) = false := by rw [h2]; exact hl
+  refine ⟨addNew_not_learning _ hl2, ?_⟩
   rw [addNew_chain _ hl2, h2]
-  simp only [h]
-  exact ⟨trivial, by decide, trivial, trivial⟩
+  exact ⟨rfl, rfl, rfl, rfl⟩
+
+theorem tries_pos (ev : Event) : 1 ≤ tries ev := by
+  cases ev with
+  | accept u e => exact Nat.le_add_left 1 u
+  | reject n => exact Nat.le_max_right n 1
+
+/-- learning never restarts (whole iteration) -/
+theorem step_not_learning {s : State} (ev : Event) (hl : learning s = false) :
+    learning (step s ev) = false := by
+  obtain ⟨hr, ht⟩ := record_tried_chain ev hl
+  by_cases h : s.tried < 0 ∧ 0 ≤ (record s ev).tried
+  · exact (step_of_chain_first hr h.1 h.2).1
+  · rw [step_of_not_first h, adapt1_not_learning hr]; exact hr
+
+/-- at iteration boundaries `tried` is −1 (chain not started) or at least 1 -/
+theorem step_tried_boundary {s : State} (hs : Inv s) (hb : s.tried = -1 ∨ 1 ≤ s.tried)
+    (ev : Event) :
+    (step s ev).tried = -1 ∨ 1 ≤ (step s ev).tried := by
+  have hr := (hs.record ev).adapt1
+  have hlen := hr.len
+  rw [step_eq]; split
+  · rename_i h
+    simp only [Bool.and_eq_true, Bool.not_eq_true', decide_eq_true_eq] at h
+    obtain ⟨w, a, h2⟩ := adapt2_eq (adapt1 (record s ev))
+    have hl : learning (adapt2 (adapt1 (record s ev))) = false := by rw [h2]; exact h.1.1
+    rw [addNew_chain _ hl, h2]
+    right
+    show 1 ≤ (adapt1 (record s ev)).tried + 1
+    omega
+  · rename_i h
+    simp only [Bool.and_eq_true, Bool.not_eq_true', decide_eq_true_eq] at h
+    cases hl : learning (adapt1 (record s ev))
+    · -- chain regime and not the first chain iteration
+      by_cases h0 : s.tried < 0
+      · left
+        have : ¬ 0 ≤ (adapt1 (record s ev)).tried := fun h1 => h ⟨⟨hl, h0⟩, h1⟩
+        omega
+      · right
+        have h1 : 1 ≤ s.tried := by omega
+        have hls : learning s = false := by
+          cases hls : learning s
+          · rfl
+          · have := (hs.learn hls).1; omega
+        rw [adapt1_tried, (record_tried_chain ev hls).2]
+        omega
+    · left; exact (hr.learn hl).1
+
+/-- invariant of states at iteration boundaries -/
+structure BInv (s : State) : Prop extends Inv s where
+  bnd : s.tried = -1 ∨ 1 ≤ s.tried
+
+theorem binv_init (L W C : Nat) (x0 : Entry) : BInv (init L W C x0) :=
+  ⟨inv_init L W C x0, by simp [init]⟩
+
+theorem BInv.step {s : State} (hs : BInv s) (ev : Event) : BInv (step s ev) :=
+  ⟨hs.toInv.step ev, step_tried_boundary hs.toInv hs.bnd ev⟩
+
+theorem binv_foldl {s : State} (hs : BInv s) (evs : List Event) : BInv (evs.foldl step s) := by
+  induction evs generalizing s with
+  | nil => exact hs
+  | cons ev evs ih => exact ih (hs.step ev)
 
 /-! ### constant configuration -/
 
@@ -380,39 +417,42 @@ theorem step_chainLength (s : State) (ev : Event) : (step s ev).chainLength = s.
     obtain ⟨w, a, h⟩ := adapt2_eq (adapt1 (record s ev)); rw [h]; exact h1
   · exact h1
 
-/-! ### single-try runs -/
+/-! ### runs -/
 
-theorem step_single_tried {s : State} (hs : BInv s) {ev : Event} (hev : tries ev = 1) :
-    (step s ev).tried = s.tried ∨ (s.tried = -1 ∧ (step s ev).tried = 1) ∨
-      (1 ≤ s.tried ∧ (step s ev).tried = s.tried + 1) := by
-  have hlen := hs.len
-  have hne := hs.ne0
+/-- change of `tried` over one iteration -/
+theorem step_tried {s : State} (hs : BInv s) (ev : Event) :
+    (step s ev).tried = s.tried ∨ (s.tried = -1 ∧ (step s ev).tried = tries ev) ∨
+      (1 ≤ s.tried ∧ (step s ev).tried = s.tried + tries ev) := by
+  have hb := hs.bnd
   cases h : learning s
   · obtain ⟨hl, ht⟩ := record_tried_chain ev h
-    rw [hev] at ht
+    have hp := tries_pos ev
     by_cases h1 : s.tried = -1
     · right; left
-      refine ⟨h1, (step_of_chain_tried_zero hl ?_).2.1⟩
-      rw [ht, h1]; rfl
+      refine ⟨h1, ?_⟩
+      rw [(step_of_chain_first hl (by omega) (by omega)).2.2.1, ht]; omega
     · right; right
       have h2 : 1 ≤ s.tried := by omega
       refine ⟨h2, ?_⟩
-      rw [step_of_chain_tried_ne_zero hl (by rw [ht]; omega), ht]; rfl
+      rw [step_of_chain_started hl (by omega), ht]
   · left
     have ht := record_tried_learning ev h
     have := (hs.learn h).1
-    rw [step_of_tried_ne_zero (by rw [ht, this]; decide), adapt1_tried, ht]
+    rw [step_of_not_first (by omega), adapt1_tried, ht]
 
-theorem run_single (C : Nat) (hC : 1 ≤ C) (evs : List Event) :
-    ∀ s : State, BInv s → s.chainLength = C → s.tried ≤ C → (∀ ev ∈ evs, tries ev = 1) →
-      finished (run s evs) = true →
-      (run s evs).tried = C ∧ (run s evs).chain.length = C + 1 := by
-  have base : ∀ s : State, BInv s → s.chainLength = C → s.tried ≤ C → finished s = true →
-      s.tried = C ∧ s.chain.length = C + 1 := by
+/-- a finished run overshoots the chain length by less than the largest number of proposals
+    tried in one iteration (`max C 1`: with chain length 0 the first chain iteration still runs) -/
+theorem run_multi (C m : Nat) (evs : List Event) :
+    ∀ s : State, BInv s → s.chainLength = C → s.tried < max C 1 + m →
+      (∀ ev ∈ evs, tries ev ≤ m) → finished (run s evs) = true →
+      (C : Int) ≤ (run s evs).tried ∧ (run s evs).tried < max C 1 + m ∧
+      ((run s evs).chain.length : Int) = (run s evs).tried + 1 := by
+  have base : ∀ s : State, BInv s → s.chainLength = C → s.tried < max C 1 + m →
+      finished s = true →
+      (C : Int) ≤ s.tried ∧ s.tried < max C 1 + m ∧ (s.chain.length : Int) = s.tried + 1 := by
     intro s hs hc ht hf
-    have hlen := hs.len
     simp only [finished, hc, ge_iff_le, decide_eq_true_eq] at hf
-    omega
+    exact ⟨hf, ht, hs.len⟩
   induction evs with
   | nil => intro s hs hc ht _ hf; exact base s hs hc ht hf
   | cons ev evs ih =>
@@ -423,9 +463,24 @@ theorem run_single (C : Nat) (hC : 1 ≤ C) (evs : List Event) :
       refine ih (step s ev) (hs.step ev) (by rw [step_chainLength, hc]) ?_
         (fun e he => hev e (List.mem_cons_of_mem _ he)) hf
       simp only [finished, hc, ge_iff_le, decide_eq_false_iff_not] at hfs
-      rcases step_single_tried hs (hev ev List.mem_cons_self) with h | ⟨_, h⟩ | ⟨_, h⟩ <;>
-        rw [h] <;> omega
+      have hm := hev ev List.mem_cons_self
+      rcases step_tried hs ev with h | ⟨_, h⟩ | ⟨_, h⟩ <;> rw [h] <;> omega
     · have hrun : run s (ev :: evs) = s := by simp only [run, hfs]; rfl
       rw [hrun]; exact base s hs hc ht hfs
+
+/-- after the chain has started `tried` grows by the number of proposals tried -/
+theorem foldl_tried_started (evs : List Event) :
+    ∀ s : State, learning s = false → 1 ≤ s.tried →
+      (evs.foldl step s).tried = s.tried + ((evs.map tries).sum : Nat) := by
+  induction evs with
+  | nil => intro s _ _; simp
+  | cons ev evs ih =>
+    intro s hl ht
+    obtain ⟨hr, htr⟩ := record_tried_chain ev hl
+    have hst : (step s ev).tried = s.tried + tries ev := by
+      rw [step_of_chain_started hr (by omega), htr]
+    simp only [List.foldl_cons, List.map_cons, List.sum_cons]
+    rw [ih (step s ev) (step_not_learning ev hl) (by rw [hst]; omega), hst]
+    omega
 
 end MTfitVerif.Chain
